@@ -49,6 +49,14 @@ def _monitor(script):
     return mon.monitor_c15(script)
 
 
+def gen_blk(seed, tier, out):
+    """block-request scenarios (the C16 profile of the node generator): request, cancel before / during / after, a late
+    or partial or wrong block, peer drop - here under C15's monitor: no crash, no hang, Run returns."""
+    n = 40 if tier == "quick" else 600
+    with open(out, "w") as f:
+        subprocess.run([str(brv.BIN / "node"), "gen", str(seed + 31), str(n), tier, "c16"], stdout=f, check=True)
+
+
 SPEC = Spec(
     prop="C15",
     title="No bytes from a peer can crash the process",
@@ -57,6 +65,7 @@ SPEC = Spec(
     props_files=[brv.LEAN / "BRV/Props/C15.lean"],
     streams=[
         Stream("node", "node", "drv_node", gen, monitor=_monitor, nontrivial=mon.nontrivial, timeout=1500),
+        Stream("nodeblk", "node", "drv_node", gen_blk, monitor=_monitor, nontrivial=mon.nontrivial, timeout=900),
         Stream("realrepo", "node", "drv_node", gen_real, monitor=_monitor, nontrivial=mon.nontrivial, compare=False),
         Stream("mgr", "mgr", "drv_mgr", gen_mgr, monitor=mon_mgr.monitor_c15, nontrivial=mon_mgr.nontrivial, timeout=900),
         Stream("mgrstall", "mgr", "drv_mgr", gen_stall, monitor=mon_mgr.monitor_c15, nontrivial=mon_mgr.nontrivial, compare=False, timeout=900,
